@@ -4,6 +4,7 @@ package main
 // files, and generates VCs for functions under contract and for lemmas.
 
 import (
+	"time"
 	"fmt"
 	"go/constant"
 	"go/token"
@@ -33,6 +34,7 @@ type Eng struct {
 	ufs       map[string]*UFDecl
 	lemmas    []*Lemma
 	globals_  []GlobalInv
+	mapvals   map[string]MapVal
 	globals   map[*ssa.Global]int64
 	funcs     map[*ssa.Function]int64
 	strings   map[string]int64
@@ -115,6 +117,12 @@ func (e *Eng) Load(patterns []string) error {
 				}
 				e.lemmas = append(e.lemmas, cf.Lemmas...)
 				e.globals_ = append(e.globals_, cf.Globals...)
+				for _, mv := range cf.MapVals {
+					if e.mapvals == nil {
+						e.mapvals = map[string]MapVal{}
+					}
+					e.mapvals[p.PkgPath+"."+mv.Name] = mv
+				}
 			}
 		}
 	})
@@ -420,6 +428,10 @@ func (e *Eng) verifyFunc(fc *FuncContract, refute bool, unrollK int) (res *FuncR
 	}()
 	tr := &FnTr{eng: e, vc: vc, fn: fn, ct: fc, env: map[ssa.Value]Val{}, refute: refute, unrollK: unrollK}
 	tr.top = tr
+	if refute {
+		// the bounded counterexample search is best effort: generation itself is time-boxed
+		tr.genDeadline = time.Now().Add(40 * time.Second)
+	}
 	tr.recovering = hasRecover(fn)
 	m0 := vc.Fresh("M0", SMem)
 	var a0 *Term
@@ -545,6 +557,17 @@ func (e *Eng) verifyFunc(fc *FuncContract, refute bool, unrollK int) (res *FuncR
 		cov.ExpectSat = true
 	}
 	tr.run(tr.entry)
+	// vacuity guard: every return statement must be reachable under the assumptions made
+	// along the way (an over-strong callee contract or model would make code dead)
+	if !refute {
+		for i, r := range tr.rets {
+			if r.St.Reach.IsFalse() {
+				continue
+			}
+			cov := vc.Oblige("cover", fmt.Sprintf("return%d", i+1), r.St.Reach, "")
+			cov.ExpectSat = true
+		}
+	}
 	// normal exits
 	if len(tr.rets) > 0 {
 		sub := tr
